@@ -30,7 +30,7 @@ RULE = ("scenario = world layout (11 layouts: output beside / nested in / equal 
         "elsewhere x history of 1-3 runs over {generate, init, build-script} with source switches (commands / other commands / "
         "events / no commands), zod/none/invalid mode, visualisation, force, configuration from flags / tauri.conf.json / "
         "typegen.json / defaults; plus a name sweep (every listed name alone and all together, as file and as directory, on "
-        "both entries; every systematic near-miss of every reserved name - stem.x.ts, stem.ts.x, x.stem.ts, stem-x.ts, stemx.ts, xstem.ts, case and extension variants, .tmp siblings of the written files, affix words alone and with other extensions - all together as files, as directories, nested and beside the output directory, on both entries, 3 runs each) and a malformed stream (blocked or missing paths, broken JSON, directories under reserved names). "
+        "both entries; generations and failing runs (a directory under the name of each written file) with TMPDIR, HOME and XDG_* pointed at watched directories, TMPDIR on the sandbox's file system and on a second one (/dev/shm); every systematic near-miss of every reserved name - stem.x.ts, stem.ts.x, x.stem.ts, stem-x.ts, stemx.ts, xstem.ts, case and extension variants, .tmp siblings of the written files, affix words alone and with other extensions - all together as files, as directories, nested and beside the output directory, on both entries, 3 runs each) and a malformed stream (blocked or missing paths, broken JSON, directories under reserved names). "
         "Non-trivial = at least one run changed the tree or ran against foreign files; distinct = distinct scenarios")
 TRUSTED = [
     "tools/props/c16_world.py: sandbox construction, snapshot/diff, python re-computation of the effective configuration (mirrors run_generate / load_configuration / detect_project) and of init's target path",
@@ -115,7 +115,9 @@ def evaluate(scenarios):
             raise vlib.BuildError("runner: %s" % r)
         by[key] = (h[0], r)
     outs = []
-    stats = {"runs": 0, "changed_paths": 0, "by_entry": {}, "by_decision": {}}
+    stats = {"runs": 0, "changed_paths": 0, "by_entry": {}, "by_decision": {},
+             "scenarios_tmpdir_other_fs": sum(1 for o in obs if o.get("tmp_other_fs")),
+             "scenarios_tmpdir_fallback_no_second_fs": sum(1 for o in obs if o.get("tmp_fallback"))}
     for i, (sc, o) in enumerate(zip(scenarios, obs)):
         case = sc
         if o.get("error"):
@@ -222,6 +224,10 @@ def run(rep):
     rep.add("names", names_stream(rng, rep.tier), sample_count=1)
     total = sum(s["cases"] for n, s in rep.streams.items() if n != "names")
     inside = sum(s["in_known_class"] for n, s in rep.streams.items() if n != "names")
+    rep.extra["watched_environment"] = {
+        "variables": sorted(W.ENV_DIRS) + ["current directory"], "second_file_system": W.SECOND_FS,
+        "second_file_system_usable": any(d.get("scenarios_tmpdir_other_fs") for d in rep.extra.get("distribution", {}).values()),
+        "note": "TMPDIR, HOME and XDG_* point into directories that are part of every snapshot; TMPDIR is on the second file system where a scenario says so, with a recorded fall-back to the sandbox's file system when none is writable"}
     rep.extra["outside_every_class"] = total - inside
     rep.extra["inside_a_class"] = inside
 
